@@ -9,6 +9,7 @@ Oracle: reference palette per object + structural reference renderer.
 import copy
 import re
 
+from .. import envmode
 from ..kernel import Violation, canon
 from ..gen import AA, gen_seq, CLASSES
 from ..minimise import list_candidates
@@ -17,7 +18,7 @@ ID = "C20"
 LEVEL = "fault_enumeration"
 COLOURS = ['aqua', 'black', 'blue', 'fuchsia', 'gray', 'green', 'lime', 'maroon', 'navy', 'olive',
            'orange', 'purple', 'red', 'silver', 'teal', 'white', 'yellow']
-BAD_COLOURS = ["pink", "#ff0000", "", None, 7, "redd", "re d", "grey", ["red"], {"colour": "red"}, ["red", "blue"], 3.5, True]
+BAD_COLOURS = ["pink", "#ff0000", "", None, 7, "redd", "re d", "grey", "red\n", "blue\n", "\nred", "red ", " red", "red\r\n", ["red"], {"colour": "red"}, ["red", "blue"], 3.5, True]
 TIERS = {
     "quick": {"runs": 6000, "wall_cap": 100, "timeout": 60, "dups": 16},
     "thorough": {"runs": 120000, "wall_cap": 1500, "timeout": 60, "dups": 64},
@@ -102,10 +103,10 @@ def gen_plan(streams, tier):
         elif x < 0.90:
             ops.append({"k": "render", "o": rnd.randrange(nobj + 1)})
         elif x < 0.93:
-            ops.append({"k": "copy", "o": rnd.randrange(nobj + 1), "via": rnd.choice(("frozen_all", "frozen_all", "shuffle", "permutant"))})
+            ops.append({"k": "copy", "o": rnd.randrange(nobj + 1), "via": rnd.choice(("frozen_all", "frozen_all", "shuffle", "permutant", "deepcopy", "pickle"))})
         else:
             ops.append({"k": "new", "seq": gen_seq(rnd, rnd.randrange(1, 70))})
-    return {"property": ID, "noise": (rnd.randrange(1 << 30) if rnd.random() < 0.2 else None), "run_seed": streams.run_seed, "objects": objs, "ops": ops}
+    return {"property": ID, "env": envmode.choose(rnd), "noise": (rnd.randrange(1 << 30) if rnd.random() < 0.2 else None), "run_seed": streams.run_seed, "objects": objs, "ops": ops}
 
 
 def corpus():
@@ -276,6 +277,7 @@ def execute(plan, ctx):
     import localcider.sequenceParameters as spmod
     from localcider.sequenceParameters import SequenceParameters
     from localcider.backend.data import aminoacids
+    envmode.apply(plan.get("env"), ctx)
     spmod.print = lambda *a, **k: None
     if plan.get("noise") is not None:
         from ..noise import noise_prelude
@@ -322,7 +324,11 @@ def execute(plan, ctx):
             # a shuffled copy is an object of its own: whatever palette it starts with (the default, or the
             # parent's at that moment), from now on only its own updates may change it
             i = op["o"] % len(objs)
-            if op["via"] == "permutant":
+            if op["via"] in ("deepcopy", "pickle"):
+                import copy as _copy
+                import pickle as _pickle
+                child = _copy.deepcopy(objs[i]) if op["via"] == "deepcopy" else _pickle.loads(_pickle.dumps(objs[i]))
+            elif op["via"] == "permutant":
                 child = SequencePermutants(seqs[i]).get_permutant()
             elif op["via"] == "frozen_all":
                 child = objs[i].get_shuffled_sequence(set(range(len(seqs[i]))))
@@ -333,7 +339,7 @@ def execute(plan, ctx):
             seqs.append(cs)
             start = None
             html = child.get_HTMLColorString()
-            for cand in (default, pals[i]):
+            for cand in ((pals[i],) if op["via"] in ("deepcopy", "pickle") else (default, pals[i])):
                 if check_render(html, cs, cand) is None:
                     start = dict(cand)
                     break
